@@ -216,9 +216,16 @@ def embedded(ctx, strings):
         rng = ctx.rng('embed')
         picks = [s for s in strings if '"""' not in s and '\x00' not in s and '\\' not in s and '\r' not in s and '\x0c' not in s]
         picks = rng.sample(picks, min(len(picks), 150 if ctx.tier == 'quick' else 3000))
-        for n, s in enumerate(picks):
+        # the same with a NON-raw literal whose text holds escape sequences (so that its value has more newlines than
+        # the literal has physical lines): a handful of fixed texts, whatever the fuzz sample holds
+        escaped = ['Text with escapes ' + '\\n' * k + ' end.\n\n    >>> print(%d)\n    %d' % (k, k) for k in (1, 3, 12, 60)] + \
+                  ['>>> print("a' + '\\n' * k + 'b")' for k in (2, 30)] + ['Tabs \\t and \\\\ backslashes \\x41 ' + '\\n' * 25]
+        picks = [(s, True) for s in picks] + [(s, False) for s in escaped]
+        for n, (s, raw) in enumerate(picks):
             body = '\n'.join('    ' + l for l in s.split('\n'))
             src = MOD_TMPL % body
+            if not raw:
+                src = src.replace('def broken():\n    r"""', 'def broken():\n    """', 1)
             try:
                 compile(src, 'm', 'exec')
             except Exception:
